@@ -212,6 +212,12 @@ func checkC08(tier string) int {
 			defer res.R.Close()
 		}
 		if res.Err != nil {
+			if ae, ok := res.Err.(*hist.ApplyError); ok && ae.Block != nil && len(ae.Block.Resp) > 1 && ae.Block.Resp[1] != nil && ae.Block.Resp[1].ApplyErr == "" && ae.Block.Resp[1].Err == "" {
+				// Tendermint refused the results of the node that never stopped and accepted those of the node that
+				// was restarted earlier: the two did not produce the same validator updates
+				r.Violate(verdict.Violation{Signature: "C08/continued/tendermint-refused-on-one-node-only/" + classifyApplyErr(ae.Msg), What: fmt.Sprintf("history seed %d block %d: the uninterrupted node's block results were refused by Tendermint (%s), those of the node restarted earlier were accepted", hseed, ae.Block.H, ae.Msg), Witness: map[string]interface{}{"seed": hseed, "height": ae.Block.H, "recipes": res.R.Recipes()}})
+				return
+			}
 			reportRunErr(r, "C08", hseed, res)
 			return
 		}
